@@ -1320,10 +1320,17 @@ static CellResult runHttpCell(const std::vector<std::string> &t)
     ServerPeer sp;
     sp.kind = peerKind(peer);
     sp.cert = scert;
-    sp.ceil = ceil;
+    sp.ceil = (scert == "mismatch" && ceil > TLS1_2_VERSION) ? TLS1_2_VERSION : ceil;
     sp.http = true;
     sp.start();
     Relay relay;
+    if (scert == "mismatch" && sp.kind == PeerKind::Tls)
+    {
+      unsigned char *der = nullptr;
+      int n = i2d_X509(g_ck["valid"].x, &der);
+      relay.substCert.assign((const char *)der, (size_t)n);
+      OPENSSL_free(der);
+    }
     relay.start(sp.port);
     bool ok = false, timeout = false;
     {
